@@ -25,7 +25,7 @@ def globStep (f : Nat) (neg : Bool) (body : Bytes) (re : RStr) (ed : Ed) (i : In
       if (res < 0) == neg then
         (match exExec f { ed with xrow := i } body with
         | none => none
-        | some (r, ed) => if r != 0 then some (true, ed, i) else some (false, ed, min i ed.xrow))
+        | some (r, ed) => if r != 0 then some (true, ed, i) else some (false, ed, max 0 (min i ed.xrow)))
       else some (false, ed, i)
 
 theorem scan_succ (f : Nat) (neg : Bool) (body : Bytes) (re : RStr) (dep g : Nat) (ed : Ed) (i : Int) :
@@ -156,12 +156,14 @@ inductive VRun : Nat → Ed → String → Bytes → Bytes → Bytes → Option 
   | edit {f : Nat} {ed : Ed} {loc cmd arg : Bytes} {txt : Option Bytes} {s : Ed} :
       VEdit f ed cmd arg s → VRun (f + 1) ed "ec_edit" loc cmd arg txt s
 
-/-- `:@r`: the register is run as a command line from the first line of the region -/
+/-- `:@r`: the register is run as a command line from the first line of the region, one level deeper in the
+    count of executing registers (and only when fewer than sixteen are executing) -/
 inductive VAt : Nat → Ed → Bytes → Bytes → Bytes → Ed → Prop
   | cmd {f : Nat} {ed : Ed} {loc cmd arg buf : Bytes} {rc : Nat} {b e : Int} {ed1 s : Ed} :
       regGet ed (regName arg) = some buf → exRegion ed loc = some ((rc, b, e), ed1) → (rc != 0) = false →
+      ed1.atDepth < 16 →
       (cmd.headD 0 == 114 && cmd.getD 1 0 == 97) = false →
-      VCommand f { ed1 with xrow := b } buf s → VAt (f + 1) ed loc cmd arg s
+      VCommand f { ed1 with xrow := b, atDepth := ed1.atDepth + 1 } buf s → VAt (f + 1) ed loc cmd arg s
 
 /-- `:e +cmd path`: the command runs in the state `ec_edit` prepared -/
 inductive VEdit : Nat → Ed → Bytes → Bytes → Ed → Prop
@@ -172,9 +174,10 @@ inductive VEdit : Nat → Ed → Bytes → Bytes → Ed → Prop
       ((plusSplit arg).1.headD 0 == 43) = true →
       VCommand f edX ((plusSplit arg).1.drop 1) s → VEdit (f + 1) ed cmd arg s
 
-/-- `:g`: the loop over the marked lines -/
+/-- `:g`: the loop over the marked lines (only below the eighth nesting level) -/
 inductive VGlob : Nat → Ed → Bytes → Bytes → Bytes → Ed → Prop
   | scan {f : Nat} {ed : Ed} {loc cmd arg : Bytes} {rc : Nat} {b e : Int} {ed1 : Ed} {re : RStr} {s : Ed} :
+      ed.xgdep < 7 →
       exRegion ed (if loc.isEmpty && ed.xgdep == 0 then [37] else loc) = some ((rc, b, e), ed1) → (rc != 0) = false →
       ((gPrep ed1 arg).xkwddir == 0) = false →
       (gPrep ed1 arg).mkRe (gPrep ed1 arg).xkwd = some (some re) →
